@@ -42,6 +42,7 @@ func verifyFunc(w *World, fn *ssa.Function, fc *FuncContract) (fr *FuncResult) {
 	e.curState = st
 	f := e.newFrame(fn, true)
 	e.topFrame = f
+	e.entry = st.clone()
 	var args []Val
 	for _, p := range fn.Params {
 		v := e.freshVal(shapeOf(p.Type()), "p_"+sanitize(p.Name()))
@@ -87,6 +88,27 @@ func verifyFunc(w *World, fn *ssa.Function, fc *FuncContract) (fr *FuncResult) {
 		}
 	}
 	e.entry = st.clone()
+	if fc != nil && len(fc.EntryLets) > 0 {
+		e.entryLets = map[string]Val{}
+		for _, el := range fc.EntryLets {
+			ex, err := parseSpec(el[1])
+			if err != nil {
+				panic(contractErr{fmt.Sprintf("%s: entrylet %s: %v", name, el[0], err)})
+			}
+			env := e.baseEnv(f, st.clone())
+			func() {
+				defer func() {
+					if r := recover(); r != nil {
+						if se, ok := r.(specErr); ok {
+							panic(contractErr{fmt.Sprintf("%s: entrylet %s: %s", name, el[0], se.msg)})
+						}
+						panic(r)
+					}
+				}()
+				e.entryLets[el[0]] = e.evalSpec(ex, env)
+			}()
+		}
+	}
 	e.run(f, args, st, "true")
 	// vacuity: every return is reachable under the pre-condition
 	if fc != nil {
@@ -114,6 +136,10 @@ func verifyFunc(w *World, fn *ssa.Function, fc *FuncContract) (fr *FuncResult) {
 	for _, o := range e.obls {
 		o.Probes = append(o.Probes, probes...)
 	}
+	for k := range e.usedTypeInvs {
+		e.assumed = append(e.assumed, "AST type invariant assumed for objects that exist at entry (parser output): "+k)
+	}
+	sort.Strings(e.assumed)
 	fr.Enc = e
 	fr.Obls = e.obls
 	fr.HavocSites = e.havocSites
